@@ -139,7 +139,8 @@ def make_handler(key, idx, k):
 def build(c):
     cfg, susp = c['cfg'], c['susp']
     body_k = dict((n, int(k)) for n, k in susp['body'])
-    kwargs = {'concurrent_batch': c['concurrent']}
+    # `concurrent_as`: the flag given as another truthy value (an integer): still just "concurrent"
+    kwargs = {'concurrent_batch': c.get('concurrent_as', c['concurrent'])}
     if cfg.get('max_batch_size') is not None:
         kwargs['max_batch_size'] = int(cfg['max_batch_size'])
     if cfg.get('middlewares'):
@@ -373,6 +374,9 @@ def generate(tier, rng):
                     if sched is scheds[0] and len(elems) >= 2:
                         for via in ('aiohttp_app', 'aiohttp_endpoint'):
                             yield dict(c, via=via)
+                    if concurrent and len(elems) >= 3 and (sched is scheds[0] or sched is scheds[-1]):
+                        for n in (2, len(elems) - 1, 1):
+                            yield dict(c, concurrent_as=n)
     # rejected batches and single requests under the scheduler
     for text in ('[]', '[1]', json.dumps([element('echo', True, 0), element('echo', True, 1) | {'id': 0}]),
                  json.dumps(element('slow', True, 0)), json.dumps(element('fail_exc', False, 0))):
